@@ -272,7 +272,15 @@ def check_sf_structure(ctx):
         return e
 
     for r in rets:
-        for _dec, (kv, sv) in symbolic_paths(fv, r, list(r.value.elts)):
+        from ..astutil import ifexp_cases as _ifc
+
+        alts = []
+        for _dec, (kv0, sv0) in symbolic_paths(fv, r, list(r.value.elts)):
+            # conditional expressions inside the two values are alternatives like branches (split jointly)
+            for _c, pair in _ifc(ast.Tuple(elts=[kv0, sv0], ctx=ast.Load())):
+                if isinstance(pair, ast.Tuple) and len(pair.elts) == 2:
+                    alts.append((pair.elts[0], pair.elts[1]))
+        for kv, sv in alts:
             kx, sx = strip_zero(kv, "0"), strip_zero(sv, "1")
             if wn not in names_in(kx):
                 continue
